@@ -5,8 +5,20 @@ import vlib, scriptlib, pipelib
 PROP = "C04"
 
 
+def workers(n):
+    """TLC workers: n, unless VERIF_TLC_WORKERS caps it (shared machine)"""
+    return max(1, min(n, int(os.environ.get("VERIF_TLC_WORKERS", n))))
+
+
 LEAF = "t_add e=1 c=1"
 DATA = [[2048, 12288, 13312, 14336]]
+
+
+def signature(m):
+    """failure | kind of behaviour | family of the macro invoked (m:fd_a_z -> m:fd; guard graphs: the invocation)"""
+    b = m["behaviour"]
+    d = b["calls"][0]["def"]
+    return "%s|%s|%s" % (m["fails"][0]["what"], b.get("kind"), pipelib.family(d))
 
 
 def guard_behaviour(i, x):
@@ -46,7 +58,7 @@ def run(tier, seed):
     behaviours = []
     nontrivial = set()
     for cfg in cfgs:
-        r = vlib.tlc_must_pass(vlib.tlc("MC_C04", cfg, workers=8 if tier == "quick" else 14, timeout=3400, xmx="12g"))
+        r = vlib.tlc_must_pass(vlib.tlc("MC_C04", cfg, workers=workers(8 if tier == "quick" else 14), timeout=3400, xmx="12g"))
         vlib.require_coverage(r, ["InstFail", "DispatchNext", "StepLeaf", "StepEnter", "Return"])
         res.add_tlc(r)
         for x in r["records"].get("REPLAY", []):
@@ -56,14 +68,14 @@ def run(tier, seed):
     # ---- the same structures with a built-in whose parameter the context also supplies as a global
     # (cart / ellps for t_add / c; the model is run with the global c = 1, i.e. ellps = GRS80)
     for cfg in (["MC_C04_qg"] if tier == "quick" else ["MC_C04_tg"]):
-        r = vlib.tlc_must_pass(vlib.tlc("MC_C04", cfg, workers=8 if tier == "quick" else 14, timeout=3400, xmx="12g"))
+        r = vlib.tlc_must_pass(vlib.tlc("MC_C04", cfg, workers=workers(8 if tier == "quick" else 14), timeout=3400, xmx="12g"))
         res.add_tlc(r)
         for x in r["records"].get("REPLAY", []):
             behaviours.append(pipelib.ellps_behaviour(len(behaviours), x))
     # ---- termination: every resource graph over three names (all cycles), long chains and long cycles
     gb = []
     for cfg, wanted in (("MC_C04_guard", True), ("MC_C04_chains", True)):
-        r = vlib.tlc_must_pass(vlib.tlc("MC_C04_guard", cfg, workers=8, timeout=1700))
+        r = vlib.tlc_must_pass(vlib.tlc("MC_C04_guard", cfg, workers=workers(8), timeout=1700))
         vlib.require_coverage(r, ["StepLeaf", "Descend", "Refuse", "Return"])
         if "Termination" not in r["out"] and "temporal" not in r["out"].lower():
             pass
@@ -81,22 +93,27 @@ def run(tier, seed):
     res.behaviours_replayed = summary["behaviours"] - len(mism)
     res.evaluations = summary["evaluations"]
     res.distinct_nontrivial = len(nontrivial)
-    res.rule = ("TLC enumerates invocations (alone and as a pipeline step, plain and inverted, three modifier layouts) of 68 macros "
+    res.rule = ("TLC enumerates invocations (alone and as a pipeline step, plain and inverted, three modifier layouts) of 116 macros "
                 "covering every binding form (key=$n, key=$n(d), key=(d), literal, absent), forwarding through one and two levels "
-                "of nesting under every ordered pair of parameter names from {a, m, z, _u}, pipeline bodies, step-local vs caller "
+                "of nesting under every ordered pair of parameter names from {a, m, z, _u} - the same name on both sides included "
+                "(m:in q=$q, q=$q(d), q=(d)) - with and without a default at either level, nested invocations with two arguments "
+                "that exchange or shadow each other's names, pipeline bodies, step-local vs caller "
                 "values, with every argument set of up to N arguments from a pool of six; replayed into the real library: "
                 "instantiation succeeds/fails as the reference says, exact operands and counts in both directions, bit-identity "
-                "with the stand-alone plan and with the literal expansion text. Non-trivial = distinct invocation texts that "
+                "with the stand-alone plan and with the literal expansion text. Resource graphs: every graph over three names, "
+                "chains and cycles up to 60 levels, binary fan-out up to 8 levels. Non-trivial = distinct invocation texts that "
                 "are refused or change the operands.")
     res.samples = [b for b in behaviours[:: max(1, len(behaviours) // 3)]][:3]
     res.exhaustive = True
     res.assumptions = ["probe operators are defined by the harness",
-                       "self-forwarding (key=$key) is not generated: caller arguments are visible without it",
+                       "the arguments of a nested invocation are resolved in the caller's frame when the invocation is bound: "
+                       "key=$name with name absent is an error even if the invoked macro has a default of its own for key",
+                       "the recursion guard bounds the depth of the resolution, not its work (fan-out): only depth <= 8 is replayed",
                        "which Error variant is returned is not compared"]
-    for m in mism:
+    for m in pipelib.ordered(mism, signature):
         b = m["behaviour"]
         res.add_violation({"suite": "macro", "behaviour": b, "fails": m["fails"], "def": b["calls"][0]["def"],
-                           "what": m["fails"][0]["what"], "signature": m["fails"][0]["what"] + "|" + b["calls"][0]["def"]})
+                           "what": m["fails"][0]["what"], "signature": signature(m)})
     return res.finish()
 
 
